@@ -7,6 +7,7 @@ func main() {
 		"gen": func(a []string) int { return RunGen(gens, a) },
 		"c04": c04,
 		"c17": c17,
+		"c12": c12,
 	})
 }
 
